@@ -14,6 +14,8 @@ PROFILES = {
     # name: (classes, MaxObjs quick, thorough, MaxTuple, xfields, xclasses)
     "struct": (["Leaf", "SubLeaf", "Unary", "Many"], 4, 5, 2, {"child", "items", "head"}, {"Leaf", "Unary", "ASTNode"}),
     "mixed": (["Leaf", "FLeaf", "Opt", "Bin", "Pair"], 4, 5, 2, {"child", "left", "right", "pair"}, {"Leaf", "FLeaf", "Bin"}),
+    # a parent with two tuple fields (and a single one) holding nodes of one class at the same index
+    "twotuples": (["Leaf", "SubMany"], 3, 4, 2, {"items", "extra", "head"}, {"Leaf", "ASTNode"}),
 }
 ANC = {frozenset({"Unary"}), frozenset({"Many", "Unary"}), frozenset({"ASTNode"}), frozenset({"Leaf", "Bin"})}
 
